@@ -323,9 +323,15 @@ var propDeps = map[string][]string{
 	"C03": {"C02"},
 	"C12": {"C02", "C03"},
 	"C09": {"C02", "C03"},
+	// C13: "the data received so far is still delivered (a partial frame as non-RTCM) and the output
+	// channel is closed" is the framing stage's lossless-segmentation clause at end of input
+	"C13": {"C02", "C03"},
 	"C10": {"C09", "C02", "C03", "C01"},
 	"C11": {"C10", "C09", "C02", "C03", "C01"},
 	"C04b": {"C04"},
+	// C19: "parsing the traffic ... never ... withholds or stops the relayed stream": the parser the
+	// proxy starts consumes its whole input (the lossless-segmentation clauses of the framing stage)
+	"C19": {"C02"},
 }
 
 // propSupport: clauses of these properties are active inside the cone of the key property
@@ -343,7 +349,7 @@ var propSupport = map[string][]string{
 	// the same for the reader-to-sinks pipeline (C09) and the filter built on it (C10, C11):
 	// "after the source is exhausted the call returns" and the output statements hold for every
 	// byte stream only if the framing stage survives it
-	"C09": {"C07"}, "C10": {"C07"}, "C11": {"C07"},
+	"C09": {"C07"}, "C10": {"C07"}, "C11": {"C07"}, "C13": {"C07"},
 }
 
 // active reports whether a clause with the given property tags takes part in
